@@ -229,4 +229,28 @@ let () =
         (String.concat " " (case_head "c20.treem" bigend types info abbrev :: toks),
          fun dbg -> model_treem dbg bigend types info abbrev hist)))
 
+(* ---- LineRows clones (Model/LineClone.v on top of LineRd) ----
+   case: c20.linem <be> <asz> <unit hex> <k>;  result: ok <head> | <clone tail> <status> | <original tail> <status> *)
+let () =
+  register "c20.linem"
+    ~doc:"LineRows::clone after k calls of next_row (k = 0 .. beyond the end) on generated line programs (C04 generator: well-formed and wild programs, noise, v2-5): head, then the clone drained, then the original drained, errors recorded and iteration continued until Ok(None)"
+    (fun ~seed ~n emit ->
+      S_c02.sharded ~seed ~n emit (fun _ r ->
+        (* address sizes 1..8 only: other sizes are a misuse of DebugLine::program by the caller (C04) *)
+        let rec gen () = let c = S_c04.gen_raw r ~version:(S_c04.any_version r) ~wild:true in
+          if c.S_c04.asz >= 1 && c.S_c04.asz <= 8 then c else gen () in
+        let c = gen () in
+        let bytes = S_c04.unit_of c (S_c04.gen_any_prog r c) in
+        let k = match rand_int r 4 with 0 -> 0 | 1 -> 1 + rand_int r 3 | 2 -> 50 | _ -> rand_int r 12 in
+        (spf "%s %d" (S_c04.case "c20.linem" c bytes) k,
+         fun dbg -> S_c04.with_header dbg c.S_c04.be c.S_c04.asz bytes (fun h ->
+           let (((es, early), (t1, s1)), (t2, s2)) = LineClone.line_clone dbg c.S_c04.be h (nat_of_int k) in
+           let ev = function LineRd.EvRow r -> S_c04.pr_row r | LineRd.EvErr e -> "err:" ^ Errnames.name e in
+           let bad = function LineRd.SPanic -> Some "panic" | LineRd.SFuel -> Some "outoffuel" | _ -> None in
+           match (match early with Some s -> bad s | None -> None), bad s1, bad s2 with
+           | Some x, _, _ | _, Some x, _ | _, _, Some x -> x
+           | None, None, None ->
+             String.concat " " (["ok"] @ List.map ev es @ ["|"] @ List.map ev t1 @ [S_c04.pr_status s1; "|"]
+                                @ List.map ev t2 @ [S_c04.pr_status s2])))))
+
 let init () = ()
